@@ -177,3 +177,32 @@ def equivalent(pred_a, pred_b, pats):
 
 # Complement: in the outside row every variable is 0 and ``~`` yields 1 — this is what the
 # lambda ``1 - t(row)`` computes, since variables read 0 there.  Nothing else is needed.
+
+
+# ------------------------------------------------------------------------------------------------ concrete refutation
+
+_SAFE = (ast.Expression, ast.BoolOp, ast.And, ast.Or, ast.UnaryOp, ast.Not, ast.Invert, ast.USub, ast.BinOp, ast.BitAnd, ast.BitOr, ast.BitXor,
+         ast.Sub, ast.Add, ast.LShift, ast.RShift, ast.Compare, ast.Eq, ast.NotEq, ast.Lt, ast.LtE, ast.Gt, ast.GtE, ast.Name, ast.Load, ast.Constant)
+
+
+def refute_concrete(expr, bindings, spec, width=4):
+    """Search all assignments of ``width``-bit integers for one on which the truth value of the guard expression ``expr``
+    (Python integer semantics: ``&``, ``|``, ``~``, ``-``, shifts and *ordering* comparisons included) differs from
+    ``spec``.  ``bindings`` yields dicts {source name: int} (the admissible assignments, constraints already applied);
+    ``spec(assignment) -> bool``.  Returns a counterexample assignment or None.  Only a refutation is meaningful: a formula
+    that agrees on every small assignment is *not* thereby proven for all widths.  The formula is evaluated, never code
+    of the package."""
+    if any(not isinstance(n, _SAFE) for n in ast.walk(expr)) or any(isinstance(n, ast.Constant) and not isinstance(n.value, (int, bool)) for n in ast.walk(expr)):
+        return None
+    code = compile(ast.fix_missing_locations(ast.Expression(body=expr)), '<guard>', 'eval')
+    names = {n.id for n in ast.walk(expr) if isinstance(n, ast.Name)}
+    for env in bindings(width):
+        if not names <= set(env):
+            return None
+        try:
+            got = bool(eval(code, {'__builtins__': {}}, dict(env)))
+        except Exception:
+            return None
+        if got != bool(spec(env)):
+            return dict(env, found=got, expected=bool(spec(env)))
+    return None
